@@ -65,6 +65,15 @@ def main(argv=None):
         mod.main(chk)
         chk.finish()
     except Broken as e:
+        # a vacuity / self-test failure raised by the check while violations are already
+        # recorded is a consequence of the defect (e.g. everything raises, so an outcome class
+        # never occurs): report the violations, not BROKEN
+        known_open = set("|".join(f["signature"]) for f in chk.known_findings() if f.get("status") == "open")
+        if any(k not in known_open for k in chk.violations):
+            print("NOTE: %s: self-check failed after violations were recorded: %s" % (pid, e))
+            chk.cap("self-check failed: %s" % e)
+            chk._required = []
+            chk.finish()
         print("BROKEN: %s: %s" % (pid, e))
         sys.exit(2)
     except (SystemExit, BrokenPipeError):
